@@ -607,4 +607,9 @@ PROPS["C18"] = {
     },
 }
 
+# properties whose model side is an independent implementation of the standard the property names (RFC / FIPS reference
+# primitives, JWT rules): every model/implementation disagreement on their lines is a concrete failing input of the implementation.
+for _p in ("C01", "C02", "C03", "C04", "C06", "C08", "C09", "C10", "C15", "C16", "C17"):
+    PROPS[_p]["reference_lines"] = True
+
 NOT_BUILT = {}
